@@ -48,7 +48,10 @@ structure St where
   rejected : List Nat := []                 -- request ids named by bad_server_salt while pending
   acked : List Nat := []
   gotOdd : List Nat := []                   -- msg_ids of content-related (odd seq_no) messages received
-  stored : List Int := []                   -- newest first
+  stored : List Int := []                   -- salts written to the session store, newest first
+  storeLog : List Int := []                 -- every salt handed to the store (written or refused), newest first
+  failedStore : List Int := []              -- salts the store refused to write (an environment fault)
+  lostAck : List Nat := []                  -- ids whose acknowledgement could not be written (an environment fault)
   adopted : List Int := []                  -- every salt adopted (bad_server_salt, new_session_created), oldest first
   warnings : Nat := 0
   deriving Repr, Inhabited
@@ -59,6 +62,8 @@ inductive Ev where
   | recv (mid seq : Nat) (m : Msg)
   | deliver (c : Nat) (v : String)
   | store (s : Int)
+  | ackLost (ids : List Nat)                -- environment fault: the write of the acknowledgement naming ids failed
+  | storeLost (s : Int)                     -- environment fault: the session store refused to write this salt
   deriving Repr, Inhabited
 
 def lookupPending (p : List (Nat × Nat)) (id : Nat) : Option Nat :=
@@ -184,7 +189,17 @@ def step (s : St) : Ev → Option St
     | none => none
   | .store x =>
     match s.owedStore with
-    | y :: rest => if x = y then some { s with owedStore := rest, stored := x :: s.stored } else none
+    | y :: rest => if x = y then some { s with owedStore := rest, stored := x :: s.stored, storeLog := x :: s.storeLog } else none
+    | [] => none
+  -- the two environment faults: the client did what it owed, the environment refused; the client gives the
+  -- action up (it does not retry: nothing in the properties asks it to) and goes on
+  | .ackLost ids =>
+    if ids ≠ [] ∧ ids.all (fun i => s.owedAck.contains i) then
+      some { s with owedAck := strike s.owedAck ids, lostAck := ids ++ s.lostAck }
+    else none
+  | .storeLost x =>
+    match s.owedStore with
+    | y :: rest => if x = y then some { s with owedStore := rest, storeLog := x :: s.storeLog, failedStore := x :: s.failedStore } else none
     | [] => none
 
 def run (s : St) : List Ev → Option St
